@@ -281,5 +281,9 @@ out = eqx.combine(jax.tree.map(lambda o, t: self.tau * o + (1 - self.tau) * t, o
                      detail=show(out[nm], maxlen=160), necessary_for="the temperature changes only when autotuning is on")
     if seen != {True, False}:
         raise AnalysisError(f"{con7}: expected both autotune cases")
-    for r_, n in (("C10.1", 7), ("C10.2", 60), ("C10.3", 2), ("C10.4", 6), ("C10.5", 3), ("C10.6", 40)):
+    # C10.7 configuration wiring: update interval, tau, policy_frequency, num_envs, num_steps, learning_starts ... are the configured ones
+    from .util import ctor_wiring
+    for cls in ("PPO", "A2C", "REINFORCE", "DQN", "SAC"):
+        ctor_wiring(s, "C10.7", cls, necessary_for="the schedule (steps per iteration, update interval, tau, policy frequency) is the configured one")
+    for r_, n in (("C10.1", 7), ("C10.2", 60), ("C10.3", 2), ("C10.4", 6), ("C10.5", 3), ("C10.6", 40), ("C10.7", 40)):
         s.floor(r_, n)
